@@ -167,6 +167,7 @@ fn main() {
         "sem-replay" => sem::replay(&args),
         "ac" => ac::run(&args),
         "bisim" => ac::bisim(&args),
+        "nested" => ac::nested(&args),
         "pc" => pc::run(&args),
         "packed" => packedc::run(&args),
         "stream" => stream::run(&args),
@@ -175,6 +176,7 @@ fn main() {
         "meta" => misc::meta(&args),
         "purity" => misc::purity(&args),
         "bigkinds" => misc::bigkinds(&args),
+        "scaling" => misc::scaling(&args),
         "faildepth" => ac::faildepth(&args),
         "repr" => ac::repr(&args),
         "repr-nnfa" => repr::nnfa(&args),
